@@ -49,6 +49,15 @@ PROPS = {
                      "repeated/first/last, unknown names, mistyped operands, 12 and 14 matchers); every rule is used for get and for fetch (states and methods), "
                      "followed by a change and by re-use of the same fetch id; selections and events are compared with an independent matcher. "
                      "Non-trivial = at least one well-formed rule selects a proper non-empty subset of the paths; distinct = scenario hash."),
+    "C02": scen("c02", ["default"],
+                quick=dict(cases=1500, size=60), thorough=dict(cases=40000, size=100, budget_s=3000),
+                rule="rapidcheck-generated request objects of 26 shapes (every dispatcher method, unknown/empty/non-string methods, missing, mistyped and "
+                     "duplicated members, unsolicited response objects, neither-request-nor-response) crossed with 27 id values of every JSON type "
+                     "(strings incl. empty/200-byte/escaped, integers around 2^31/2^32/2^53, fractions, exponent forms, null/bool/object/array, absent), single "
+                     "and in batches of 0-4 members (optionally with a non-object member), mixed with ordinary add/fetch/set/call/reply traffic of 1-4 peers "
+                     "and timer expiry; every transcript is compared with the reference model step by step (exactly one response with an equal id and one of "
+                     "result/error on the requester's connection only, batch order, nothing for id-less requests and response objects). "
+                     "Non-trivial = the scenario contains a batch of >=2 members, a non-numeric id, or an incoming response object; distinct = scenario hash."),
 }
 
 def plan_workers(spec, tier, nproc):
